@@ -174,7 +174,7 @@ def lean_stage(ctx):
         except GenError as e:
             gen_err = str(e)
     mods = list(getattr(p, "LEAN_MODULES", []))
-    targets = mods + (["awsmodel"] if getattr(p, "COMPONENT", None) or getattr(p, "NEEDS_DRIVER", False) else [])
+    targets = mods + ([getattr(p, "DRIVER_EXE", "awsmodel")] if getattr(p, "COMPONENT", None) or getattr(p, "NEEDS_DRIVER", False) else [])
     ok, err = True, ""
     if gen_err:
         ok, err = False, "translator: " + gen_err
@@ -267,7 +267,7 @@ def run_both(ctx, cases, exe, component, jobs=16, timeout=600, c_env=None):
     n = len(cases)
     jobs = max(1, min(jobs, n))
     chunks = [list(range(k, n, jobs)) for k in range(jobs)]
-    model = os.path.join(LEAN, ".lake", "build", "bin", "awsmodel")
+    model = os.path.join(LEAN, ".lake", "build", "bin", getattr(ctx.p, "DRIVER_EXE", "awsmodel"))
     c_out, m_out, crashes = {}, {}, {}
 
     def one(idxs):
@@ -368,13 +368,14 @@ def correspondence_stage(ctx, cases=None, exe=None):
         except cbuild.BuildError as e:
             ctx.machinery_broken("build: " + str(e)[:3000])
             return
-    if component and not os.path.exists(os.path.join(LEAN, ".lake", "build", "bin", "awsmodel")):
-        component = None
+    drv = getattr(p, "DRIVER_EXE", "awsmodel")
     if not ctx.lean_ok and component:
         # the model driver may be stale or unbuildable: try to build it alone
-        rc, _ = lake_build(["awsmodel"])
+        rc, _ = lake_build([drv])
         if rc != 0:
             component = None
+    if component and not os.path.exists(os.path.join(LEAN, ".lake", "build", "bin", drv)):
+        component = None
     c_out, m_out, crashes = run_both(ctx, cases, exe, component,
                                      timeout=getattr(p, "TIMEOUT", 600), c_env=getattr(p, "C_ENV", None))
     ctx.cov["evaluations"] += len(cases)
